@@ -335,3 +335,46 @@ def run_reforder(prog, ctx=None):
                        "" if ok else "%s (old value of %s) is released before %s is retained: if both are the same object and this was its last reference it is destroyed and then used" % (
                            uv["n"], slot_txt, av["n"]))
     return res
+
+
+def run_lowerfail(prog, ctx=None):
+    """LOWERFAIL: a function that gives up a reference with mpt_refcount_lower(R) while others remain (non-zero result) and then
+    fails (returns null / a negative status) has taken it back with mpt_refcount_raise(R) on that path: otherwise the caller
+    still holds its pointer but the count no longer says so — the object looks unshared and is released twice"""
+    res = Result("LOWERFAIL")
+    files = set(ctx.get("files", [])) if ctx else None
+    from .rules_path import funcs_of
+    n = 0
+    for f in funcs_of(prog, files):
+        T = f.T(f.ret)
+        if T.get("k") not in ("ptr", "int"):
+            continue
+        for bid, blk in f.blocks.items():
+            if not (blk.term and blk.term.get("cond") is not None and len(blk.succ) == 2):
+                continue
+            c = strip(blk.term["cond"], all_casts=True)
+            neg = False
+            while c.get("k") == "un" and c.get("op") == "!":
+                neg = not neg
+                c = strip(c["e"], all_casts=True)
+            if not (c.get("k") == "call" and callee_name(c) == "mpt_refcount_lower" and c.get("args")):
+                continue
+            arg = norm(show(c["args"][0], f))
+            remain = blk.succ[1 if neg else 0]
+            if remain is None:
+                continue
+            raises = set()
+            for b2, i2, e2 in f.elements():
+                if e2.get("k") == "call" and callee_name(e2) == "mpt_refcount_raise" and e2.get("args") and norm(show(e2["args"][0], f)) == arg:
+                    raises.add(b2.id)
+            reach = f.reachable_from(remain, avoid=raises)
+            bad = None
+            for b2, i2, e2 in f.elements():
+                if b2.id in reach and e2.get("k") == "ret" and e2.get("e") is not None:
+                    v = cval(e2["e"])
+                    if v is not None and (v < 0 or (v == 0 and T.get("k") == "ptr")):
+                        bad = e2
+            n += 1
+            res.ob("%s:lower(%s)" % (f.qn, arg), bad is None, f, (bad.get("l") if bad else c.get("l")) or f.line,
+                   "" if bad is None else "after mpt_refcount_lower(%s) left other references, `%s` reports failure without mpt_refcount_raise(%s): the caller keeps a pointer the count no longer covers" % (arg, norm(show(bad, f)), arg))
+    return res
